@@ -85,6 +85,8 @@ let op_of_tok (t : string) : oct_op =
 
 let () =
   (* c11 <api><type>:<value> ...  ->  W=<hex> L=<len,...> R=<res@pos/len+alloc;...> *)
+  (* c11R: the same case on a stream reused after Reset(): in the model a stream after Reset is the empty stream *)
+  Registry.register "c11R" (fun toks -> (Hashtbl.find Registry.handlers "c11") toks);
   Registry.register "c11" (fun toks ->
       match oct_c11_case (List.map val_of_tok toks) with
       | None -> "NOFUEL"
